@@ -658,6 +658,14 @@ pub fn apply_dev(toks: &[Tk], d: &Dev) -> String {
     }
 }
 
+/// all canonical (text tokens, tree) pairs: operator chains, lists, primaries, statements in contexts
+pub fn canonical_corpus() -> Vec<(Vec<Tk>, Vec<Stmt>)> {
+    let mut v = expr_cases();
+    v.extend(primary_cases());
+    v.extend(statement_cases());
+    v
+}
+
 pub struct C02 {
     fixed: Rc<Vec<Base>>,
     shapes: Space<Vec<Shape>>,
